@@ -97,7 +97,8 @@ func (r *MMapReader) SeekNext(offset uint64) (uint64, []byte, error) {
 				}
 			}
 			if ix-i < len(MagicNumberSeparatorLongBytes) {
-				i = ix + 1
+				// only advance by one: a partially matched prefix may contain the start of the real marker
+				i = i + 1
 				continue
 			}
 
